@@ -5,7 +5,7 @@ parameters (numpy paths).  Intra-procedural may-alias analysis over the AST (DES
     every other value computed from a parameter (attribute, subscript, call result, view-returning numpy op, iteration)
     MAY ALIAS caller-visible state;
   * obligation per function: no mutating operation (item/attribute store, del, augmented assignment, in-place method,
-    np.add.at / copyto / put / out=) is applied to a may-alias location;
+    np.add.at / copyto / put / out= / nan_to_num(copy=False) / shuffle) is applied to a may-alias location;
   * calls into other repository functions are handled modularly (the callee carries the same obligation).
 
 Sites the analysis cannot clear on the pinned tree are listed, with the reason they are benign, in
@@ -213,9 +213,14 @@ class FuncScan(ast.NodeVisitor):
                 self.flag(node, "ufunc.at", node.args[0])
         if isinstance(f, ast.Attribute) and f.attr in ("copyto", "put", "place", "putmask", "fill_diagonal") and node.args and self.mentions_alias(node.args[0]):
             self.flag(node, "np." + f.attr, node.args[0])
+        if isinstance(f, ast.Attribute) and f.attr == "shuffle" and node.args and self.mentions_alias(node.args[0]):  # np.random.shuffle(x)
+            self.flag(node, "np.shuffle", node.args[0])
         for k in node.keywords:
             if k.arg == "out" and self.mentions_alias(k.value):
                 self.flag(node, "out=", k.value)
+            # np.nan_to_num(x, copy=False) rewrites x in place (copy=False elsewhere -- np.array, astype -- only aliases, which the alias set tracks)
+            if k.arg == "copy" and isinstance(k.value, ast.Constant) and k.value.value is False and isinstance(f, (ast.Attribute, ast.Name)) and (f.attr if isinstance(f, ast.Attribute) else f.id) == "nan_to_num" and node.args and self.mentions_alias(node.args[0]):
+                self.flag(node, "nan_to_num(copy=False)", node.args[0])
         self.generic_visit(node)
 
 
